@@ -36,6 +36,8 @@ def gen_cases(tier, seed):
     cases = [{"seed": seed * 100043 + i} for i in range(n)]
     # scale: direct-mode marginal tables with more than 2**16 joint degrees
     cases += [{"seed": seed * 100043 + 700000 + i, "bigbox": True, "_cost": 25} for i in range(2 if tier == "quick" else 24)]
+    # use: the loader is what a million-vertex network is sampled from; afterwards it still exposes the distribution its inputs describe
+    cases += [{"seed": seed * 100043 + 800000 + i, "big_sample": True, "_cost": 40} for i in range(3 if tier == "quick" else 12)]
     return cases
 
 
@@ -104,6 +106,8 @@ def run_case(case):
     T = rng.choice([1, 2, 2, 3])
     if case.get("bigbox"):
         kind, T = "marginal_direct", rng.choice([2, 3])
+    if case.get("big_sample"):
+        kind, T = rng.choice(["manual", "function", "manual"]), rng.choice([1, 2])
     sizes = [rng.choice([2, 3, 4]) for _ in range(T)]
     res.count("loaders")
     sample = {"loader": kind, "T": T}
@@ -120,6 +124,22 @@ def run_case(case):
         if type(via).__name__ != cls.__name__:
             res.violate("dispatcher-returned-wrong-loader", typ=typ, got=type(via).__name__); return None
         j1, j2 = d.jdd, via.jdd
+        use_n = (10 ** 6 + rng.randrange(1000)) if case.get("big_sample") else (rng.choice([1, 30, 3000]) if rng.random() < 0.3 else 0)
+        if use_n and isinstance(j1, dict) and j1 and hasattr(d, "sample_jds_from_jdd"):
+            # the loader is USED (a joint degree sequence is sampled from it) before its distribution is read: what it exposes is still what
+            # its inputs describe.  Sampling itself is C05's business; a failure of it is only counted here.
+            snap = dict(j1)
+            try:
+                with installed(RandomTap(seed=case["seed"] + 3, keep_log=False), "jd"):
+                    d.sample_jds_from_jdd(use_n)
+                res.count("loaders_sampled_from_before_their_distribution_was_read")
+                res.seen("sample_sizes_drawn_from_a_loader", len(str(use_n)))
+            except Exception:      # noqa: BLE001
+                res.count("sampling_calls_that_raised")
+            j1 = d.jdd
+            if not (isinstance(j1, dict) and _same(j1, snap)):
+                res.violate("sampling-from-the-loader-changed-the-distribution-it-exposes", typ=typ, n_sampled=use_n, before=repr(sorted(snap.items()))[:300],
+                            after=repr(sorted(j1.items()))[:300] if isinstance(j1, dict) else repr(j1)[:200]); return None
         if compare and isinstance(j1, dict):
             # history on one loader: building the table again (what the dispatcher does once anyway) must not change it
             first = dict(j1)
